@@ -14,7 +14,7 @@ func init() {
 			"(every-kind-gets-an-entry) for each file-mode constant a tree entry can carry (Dir, Submodule, Symlink, Executable, Regular) and for each writer (WriteTarArchive, WriteZipArchive), under the assumption " +
 			"entry.Mode == that constant no path leads from the tree walker's Next() back to it (the next entry) or to the successful end without passing the writer's header call (tar.Writer.WriteHeader / zip.Writer.CreateHeader); " +
 			"the only edge left out is the one taken because the entry is not among the requested paths. git archive writes an entry for directories and submodules in both formats. " +
-			"(prefix-entry) both writers write a header on the branch taken for a prefix that ends in '/'. (format-dispatch) every name SupportedFormats lists is a case of WriteArchive's switch. " +
+			"(prefix-entry) both writers write a header on the branch taken for a prefix that ends in '/'. (format-dispatch) every name SupportedFormats lists is a case of WriteArchive's switch. (filter-evaluated-per-entry) the path filter is evaluated on each entry's own path: a helper around MatchesPathFilter answers 'not requested' only after the matcher ran for that entry (a wildcard can stand for a directory component, so a rejected directory decides nothing about its contents). (go-mode-bits) no Unix file-type bits are converted to fs.FileMode. " +
 			"Found and fixed: the zip writer skipped directories, submodules and the prefix directory. Not decided: header fields (modes, times), contents, ordering, path filters.",
 		Assumptions: []string{"archive/tar and archive/zip write what their headers say"},
 		Run:         runC50,
@@ -76,6 +76,37 @@ func runC50(c *Ctx) {
 				filterParams = append(filterParams, po)
 			}
 		}
+		// a condition is about the path filter when it mentions the filter parameter, a local that was built from it
+		// (a helper value holding the filters), or calls the matcher
+		filterLocals := map[types.Object]bool{}
+		ast.Inspect(fi.Decl.Body, func(n ast.Node) bool {
+			if as, ok := n.(*ast.AssignStmt); ok && len(as.Lhs) == 1 && len(as.Rhs) == 1 {
+				for _, fp := range filterParams {
+					if usesObj(info, as.Rhs[0], fp) {
+						if o := objOf(info, as.Lhs[0]); o != nil {
+							filterLocals[o] = true
+						}
+					}
+				}
+			}
+			return true
+		})
+		aboutFilter := func(cond ast.Expr) bool {
+			for _, fp := range filterParams {
+				if usesObj(info, cond, fp) {
+					return true
+				}
+			}
+			for o := range filterLocals {
+				if usesObj(info, cond, o) {
+					return true
+				}
+			}
+			return nodeHasCall(cond, false, func(call *ast.CallExpr) bool {
+				fn := Callee(info, call)
+				return fn != nil && fn.Name() == "MatchesPathFilter"
+			}) != nil
+		}
 		for _, k := range kinds {
 			ko := fmPkg.Types.Scope().Lookup(k)
 			if ko == nil {
@@ -91,12 +122,8 @@ func runC50(c *Ctx) {
 				}
 				// the edge taken because the entry is not among the requested paths
 				if i == 0 && len(b.Succs) == 2 && len(b.Nodes) > 0 {
-					if cond, ok := b.Nodes[len(b.Nodes)-1].(ast.Expr); ok {
-						for _, fp := range filterParams {
-							if usesObj(info, cond, fp) {
-								return true
-							}
-						}
+					if cond, ok := b.Nodes[len(b.Nodes)-1].(ast.Expr); ok && aboutFilter(cond) {
+						return true
 					}
 				}
 				// the end of the walk and its errors: the edges on which Next()'s error is not nil
@@ -116,6 +143,47 @@ func runC50(c *Ctx) {
 		}
 	}
 	c.Floor(r1, 10)
+
+	// The path filter is a predicate on an entry's own full path (a wildcard can stand for a directory component, so a
+	// rejected directory says nothing about what lies below it). Whoever decides "not among the requested paths" must
+	// have evaluated MatchesPathFilter for that entry: in the writers the skip condition contains the call, and a helper
+	// that wraps it returns false only after the call.
+	const r5 = "filter-evaluated-per-entry"
+	isMatch := func(call *ast.CallExpr) bool {
+		fn := Callee(info, call)
+		return fn != nil && fn.Name() == "MatchesPathFilter"
+	}
+	for _, fi := range p.FuncsIn(ar) {
+		if fi.Decl.Body == nil || p.isTestFile(fi.Decl.Pos()) || fi.Decl.Name.Name == "MatchesPathFilter" || nodeHasCall(fi.Decl.Body, false, isMatch) == nil {
+			continue
+		}
+		c.Analysed(fi)
+		sig := fi.Obj.Type().(*types.Signature)
+		if sig.Results().Len() == 1 && isBoolType(sig.Results().At(0).Type()) {
+			f := p.FlowOf(fi)
+			h := f.Search(SearchOpts{Starts: []Loc{f.Entry()}, Barrier: CallNode(false, isMatch), Sink: func(nd ast.Node) bool {
+				r, ok := nd.(*ast.ReturnStmt)
+				if !ok || len(r.Results) != 1 {
+					return false
+				}
+				tv := info.Types[r.Results[0]]
+				return tv.Value != nil && tv.Value.String() == "false"
+			}})
+			c.Check(h == nil, r5, fi.Name(), fi.Decl.Pos(), orStr(ifStr(h != nil, "this filter helper answers 'not requested' on a path that never evaluated MatchesPathFilter for the entry (a decision remembered from another entry, such as a rejected parent directory): files a wildcard pattern selects below that directory are left out of the archive"),
+				"'not requested' is answered only after MatchesPathFilter was evaluated for the entry"))
+			continue
+		}
+		// a writer: the call sits in a branch condition
+		inCond := false
+		ast.Inspect(fi.Decl.Body, func(n ast.Node) bool {
+			if ifs, ok := n.(*ast.IfStmt); ok && nodeHasCall(ifs.Cond, false, isMatch) != nil {
+				inCond = true
+			}
+			return true
+		})
+		c.Check(inCond, r5, fi.Name(), fi.Decl.Pos(), orStr(ifStr(!inCond, "MatchesPathFilter is called but its answer does not decide a branch"), "the matcher is evaluated in the skip condition, for every entry"))
+	}
+	c.Floor(r5, 1)
 
 	const r2 = "prefix-entry"
 	for _, wn := range []string{"WriteTarArchive", "WriteZipArchive"} {
